@@ -41,6 +41,8 @@ func main() {
 	switch fam {
 	case "coll":
 		err = famColl(w, *seed, *n, *labels, *mode, *replay)
+	case "refs":
+		err = famRefs(w, *seed, *n)
 	case "conc":
 		err = famConc(w, *seed, *n)
 	case "sync":
